@@ -34,6 +34,14 @@ Definition mode_label (K : nat) (labels : list nat) (j : nat) : option nat := nt
 (** the kernel reads means[assignment] *)
 Definition kernel_mode (K : nat) (labels : list nat) (assignment : nat) : option nat := mode_label K labels assignment.
 
+(** ---- labels of the active particles (Resampler.run): assignments = predict(u[idx_resampled]) ---- *)
+(** [pool] = unit-cube positions of the pool (abstract type U), [idx] = resampled indices in ANY order *)
+Definition gather {U} (pool : list U) (d : U) (idx : list nat) : list U := map (fun i => nth i pool d) idx.
+Definition assign {U} (predict : U -> nat) (pool : list U) (d : U) (idx : list nat) : list nat := map predict (gather pool d idx).
+(** the "label each distinct ancestor once" shortcut: predict the distinct indices (in increasing order) and repeat by multiplicity *)
+Fixpoint repeat_by {A} (xs : list A) (counts : list nat) : list A :=
+  match xs, counts with x :: xs', c :: cs => repeat x c ++ repeat_by xs' cs | _, _ => [] end.
+
 (** len(np.unique(labels)) == n_clusters_ for labels below K: every cluster attracts a training point *)
 Definition covers (K : nat) (labels : list nat) : bool := forallb (fun k => existsb (Nat.eqb k) labels) (seq 0 K).
 (** an iteration that reuses the clustering (Trainer.run, predict-only branch): the old model's predictions are kept when they
